@@ -319,10 +319,12 @@ func (cs *State) OnStart() error {
 	if cs.doWALCatchup {
 		repairAttempted := false
 		markerWritten := false
+		replayed := 0
 
 	LOOP:
 		for {
-			err := cs.catchupReplay(cs.Height)
+			n, err := cs.catchupReplay(cs.Height, replayed)
+			replayed = n
 			var missing errEndHeightMissing
 			switch {
 			case err == nil:
